@@ -5,6 +5,8 @@ open Pynenc.C09
 #print axioms raw_empty_wait_breaks_ready
 #print axioms stores_record_standing_waits
 #print axioms release_clears
+#print axioms announce_on_finished_records_nothing
+#print axioms announce_alone_left_an_edge_on_finished
 #print axioms blocking_spec
 #print axioms blocking_spec_sql
 #print axioms prefix_facts
